@@ -2080,3 +2080,156 @@ Proof.
   - exists {| nodes := st'; clock := S (clock s) |}, v. unfold read, step. cbn [step_store]. rewrite O. reflexivity.
   - destruct O as (m & idsm & proc & ins & F & _ & _ & Hp). discriminate.
 Qed.
+
+(* ---- recompute-only-when-needed for histories with failing and panicking processors ---- *)
+Lemma pstep_inv_read pan orc s n s' : pstep pan orc s (Read n) = Some s' ->
+  exists r, pvalue (orc (clock s)) pan (fuel_of (nodes s)) (nodes s) n = Some (nodes s', r).
+Proof. cbn [pstep]. intros H. apply bind_some in H as [[st' r] [E H]]. injection H as <-. simpl. eauto. Qed.
+
+Lemma pstep_inv_edit pan orc s o s' : is_read o = false -> pstep pan orc s o = Some s' ->
+  exists r, step_store (orc (clock s)) (nodes s) o = Some (nodes s', r).
+Proof.
+  intros Hr H. destruct o; try discriminate; cbn [pstep] in H; apply bind_some in H as [[s1 r] [E H]];
+    injection H as <-; apply step_inv in E; eauto.
+Qed.
+
+Lemma pstep_ctr pan orc s o s' : stable_oracle orc -> Good pan (nodes s) -> pstep pan orc s o = Some s' ->
+  forall m, ctr (nodes s) m <= ctr (nodes s') m
+            /\ (ctr (nodes s') m = ctr (nodes s) m -> is_read o = false -> nth_error (nodes s') m = nth_error (nodes s) m)
+            /\ (is_read o = true \/ target o <> m -> ctr (nodes s') m = ctr (nodes s) m).
+Proof.
+  intros SO ([I [rk Rk]] & _) H m. destruct (is_read o) eqn:Er.
+  - destruct o; try discriminate. destruct (pstep_inv_read _ _ _ _ _ H) as [r E].
+    destruct (pvalue_sim _ pan rk (proj1 (SO _)) _ _ _ _ _ (conj I Rk) E) as [(_ & _ & L) _].
+    rewrite (store_le_ctr _ _ m L). repeat split; auto; discriminate.
+  - destruct (pstep_inv_edit _ _ _ _ _ Er H) as [r E].
+    destruct (step_store_ctr _ _ _ _ _ E m) as (A & B & C). rewrite Er in C. auto.
+Qed.
+
+Lemma prun_ctr_mono pan orc : stable_oracle orc -> forall h s s1, Good pan (nodes s) -> prun pan orc s h = Some s1 ->
+  forall m, ctr (nodes s) m <= ctr (nodes s1) m.
+Proof.
+  intros SO. induction h as [|o r IH]; simpl; intros s s1 G H m.
+  - injection H as <-. auto.
+  - apply bind_some in H as [s' [E H]]. destruct (pstep_ctr _ _ _ _ _ SO G E m) as (L & _).
+    specialize (IH _ _ (pstep_Good _ _ _ _ _ SO G E) H m). lia.
+Qed.
+
+Lemma prun_ctr_untargeted pan orc m : stable_oracle orc -> forall h s s1, Good pan (nodes s) -> prun pan orc s h = Some s1 ->
+  Forall (fun o => is_read o = true \/ target o <> m) h -> ctr (nodes s1) m = ctr (nodes s) m.
+Proof.
+  intros SO. induction h as [|o r IH]; simpl; intros s s1 G H F.
+  - injection H as <-. auto.
+  - inversion F; subst. apply bind_some in H as [s' [E H]].
+    destruct (pstep_ctr _ _ _ _ _ SO G E m) as (_ & _ & U).
+    rewrite (IH _ _ (pstep_Good _ _ _ _ _ SO G E) H H3). auto.
+Qed.
+
+Lemma pidle_run pan po : stable po -> forall h s s1 n,
+  Good pan (nodes s) -> prun pan (const_oracle po) s h = Some s1 -> clean po (nodes s) n ->
+  (forall m, reach (graph_of (nodes s)) n m -> ctr (nodes s1) m = ctr (nodes s) m) ->
+  execs_of (nodes s1) n = execs_of (nodes s) n /\ clean po (nodes s1) n.
+Proof.
+  intros ST. assert (SO : stable_oracle (const_oracle po)) by (intros c; exact ST). pose proof (proj1 ST) as PO.
+  induction h as [|o r IH]; simpl; intros s s1 n G H C U.
+  - injection H as <-. auto.
+  - apply bind_some in H as [s' [E H]]. pose proof (pstep_Good _ _ _ _ _ SO G E) as G'.
+    assert (U' : forall m, reach (graph_of (nodes s)) n m -> ctr (nodes s') m = ctr (nodes s) m).
+    { intros m Hm. destruct (pstep_ctr _ _ _ _ _ SO G E m) as (L & _).
+      pose proof (prun_ctr_mono _ _ SO _ _ _ G' H m). specialize (U m Hm). lia. }
+    assert (N : forall m, reach (graph_of (nodes s)) n m -> nth_error (nodes s') m = nth_error (nodes s) m).
+    { intros m Hm. destruct (is_read o) eqn:Er.
+      - destruct o; try discriminate. destruct (pstep_inv_read _ _ _ _ _ E) as [res Ev].
+        destruct G as ([I [rk Rk]] & _ & IP & _).
+        destruct (pvalue_full _ pan rk ST _ _ _ _ _ (conj (conj I Rk) IP) Ev) as (_ & _ & [K _]).
+        destruct C as [f Hf]. apply K. eapply clean_cone; eauto.
+      - destruct (pstep_ctr _ _ _ _ _ SO G E m) as (_ & B & _). apply B; auto. }
+    assert (C' : clean po (nodes s') n).
+    { destruct C as [f Hf]. exists f. eapply agree_on_cone; eauto. }
+    assert (Rg : forall m, reach (graph_of (nodes s')) n m -> reach (graph_of (nodes s)) n m).
+    { apply reach_agree. intros k Hk. rewrite !graph_nth, (N k Hk). auto. }
+    destruct (IH _ _ n G' H C') as [X1 C1].
+    { intros m Hm. rewrite (U m (Rg m Hm)), (U' m (Rg m Hm)). auto. }
+    split; auto. rewrite X1. apply execs_of_nth. apply N. constructor.
+Qed.
+
+(* C11 sentence 2 for histories in which processors may fail and panic (execs = COMPLETED executions; an
+   execution that panicked does not count): once n completed an execution it neither executes nor is
+   attempted again while no parameter of its cone is set and no node of its cone is re-wired — whatever
+   panics elsewhere in between *)
+Theorem exec_only_if_cone_touched_panics pan po ds h1 s0 o s0' h2 s1 n :
+  stable po ->
+  prun pan (const_oracle po) (init ds) h1 = Some s0 ->
+  pstep pan (const_oracle po) s0 o = Some s0' ->
+  execs_of (nodes s0') n <> execs_of (nodes s0) n ->
+  prun pan (const_oracle po) s0' h2 = Some s1 ->
+  Forall (fun o => ~ touches (graph_of (nodes s0')) n o) h2 ->
+  execs_of (nodes s1) n = execs_of (nodes s0') n /\ clean po (nodes s1) n.
+Proof.
+  intros ST R0 Hs Hx R1 F.
+  assert (SO : stable_oracle (const_oracle po)) by (intros c; exact ST).
+  pose proof (prun_Good pan _ SO _ _ _ (init_Good pan ds) R0) as G0.
+  pose proof (pstep_Good _ _ _ _ _ SO G0 Hs) as G0'.
+  assert (C : clean po (nodes s0') n).
+  { destruct (is_read o) eqn:Er.
+    - destruct o; try discriminate. destruct (pstep_inv_read _ _ _ _ _ Hs) as [res Ev].
+      destruct G0 as ([I [rk Rk]] & _ & IP & _).
+      destruct (pvalue_full _ pan rk ST _ _ _ _ _ (conj (conj I Rk) IP) Ev) as (_ & _ & [_ X]). apply X; auto.
+    - exfalso. apply Hx. destruct (pstep_inv_edit _ _ _ _ _ Er Hs) as [r E].
+      destruct (step_store_edit _ _ _ _ _ Er E) as (y & Ey & Hlt & _ & Ex).
+      destruct (Nat.eq_dec (target o) n) as [<- | Hne]; auto.
+      apply execs_of_nth. rewrite Ey. apply nth_error_set_nth_neq; auto. }
+  eapply pidle_run; eauto.
+  intros m Hm. eapply prun_ctr_untargeted; eauto.
+  eapply Forall_impl; [|exact F]. intros o' Ho'. destruct (is_read o') eqn:Er'; auto.
+  right. intros <-. apply Ho'. destruct o'; simpl in *; auto. discriminate.
+Qed.
+
+Lemma plist_mono {A} (f1 f2 : A -> option pres) l o :
+  (forall d y, f1 d = Some y -> f2 d = Some y) -> plist f1 l = Some o -> plist f2 l = Some o.
+Proof.
+  intros M. revert o; induction l as [|d r IH]; simpl; intros o H; auto.
+  apply bind_some in H as [y [Ey H]]. rewrite (M _ _ Ey). simpl. destruct y; auto.
+  apply bind_some in H as [xs [Exs H]]. rewrite (IH _ Exs). simpl. exact H.
+Qed.
+Lemma pports_mono (f1 f2 : id -> option pres) ps o :
+  (forall d y, f1 d = Some y -> f2 d = Some y) -> pports f1 ps = Some o -> pports f2 ps = Some o.
+Proof.
+  intros M. revert o; induction ps as [|l r IH]; simpl; intros o H; auto.
+  apply bind_some in H as [ol [El H]]. rewrite (plist_mono _ _ _ _ M El). simpl. destruct ol; auto.
+  apply bind_some in H as [xss [Exss H]]. rewrite (IH _ Exss). simpl. exact H.
+Qed.
+Lemma eval_p_mono pan g : forall f n x, eval_p pan f g n = Some x -> eval_p pan (S f) g n = Some x.
+Proof.
+  induction f; intros n x H; [discriminate|].
+  rewrite eval_p_S in H. rewrite eval_p_S. destruct (nth_error g n) as [[v|ins proc]|]; auto.
+  apply bind_some in H as [oxs [E H]]. rewrite (pports_mono _ _ _ _ IHf E). simpl. exact H.
+Qed.
+Lemma eval_p_le pan g f f' n x : f <= f' -> eval_p pan f g n = Some x -> eval_p pan f' g n = Some x.
+Proof. induction 1; auto. intros. apply eval_p_mono; auto. Qed.
+
+(* what a PANICKING read leaves behind: nodes that were clean are untouched and stay clean; every node that
+   completed an execution during it is clean; and no node whose from-scratch evaluation panics (the failed
+   path: the panicking node and everything above it) is marked up to date — in particular the node read did
+   not complete.  So the next read re-executes exactly the failed path (plus whatever was stale and never
+   reached), and it panics again unless a parameter or the wiring changed. *)
+Theorem panicked_read_commits pan po ds h s n st' r :
+  stable po -> prun pan (const_oracle po) (init ds) h = Some s ->
+  pvalue po pan (fuel_of (nodes s)) (nodes s) n = Some (st', r) ->
+  (forall m, clean po (nodes s) m -> nth_error st' m = nth_error (nodes s) m /\ clean po st' m) /\
+  (forall m, execs_of st' m <> execs_of (nodes s) m -> clean po st' m) /\
+  (forall m f, eval_p pan f (graph_of st') m = Some PPanic -> ~ clean po st' m) /\
+  (r = PPanic -> execs_of st' n = execs_of (nodes s) n).
+Proof.
+  intros ST R H.
+  assert (SO : stable_oracle (const_oracle po)) by (intros c; exact ST).
+  destruct (prun_Good pan _ SO _ _ _ (init_Good pan ds) R) as ([I [rk Rk]] & _ & IP & _).
+  destruct (pvalue_full _ pan rk ST _ _ _ _ _ (conj (conj I Rk) IP) H) as (IP' & Ev & [K X]).
+  destruct (pvalue_sim _ pan rk (proj1 ST) _ _ _ _ _ (conj I Rk) H) as [(_ & G & _) _].
+  assert (NC : forall m f, eval_p pan f (graph_of st') m = Some PPanic -> ~ clean po st' m).
+  { intros m f Hp [f' Hc]. pose proof (stale_false_evalp po pan (proj1 ST) _ _ _ IP' Hc) as Hok.
+    apply (eval_p_le _ _ _ (Nat.max f f')) in Hp; [|lia]. apply (eval_p_le _ _ _ (Nat.max f f')) in Hok; [|lia]. congruence. }
+  split; auto. split; auto. split; auto.
+  intros ->. destruct (Nat.eq_dec (execs_of st' n) (execs_of (nodes s) n)) as [E|E]; auto.
+  exfalso. apply (NC n (fuel_of (nodes s))); [rewrite G; exact Ev | apply X; exact E].
+Qed.
